@@ -184,14 +184,93 @@ class Vec:
         return isinstance(o, Vec) and o.items == self.items
 
 
+def _hkey(v):
+    """hashable identity of a concrete abstract value (scalars are their own key)"""
+    if isinstance(v, (int, str)) and not isinstance(v, bool):
+        return v
+    return "#" + repr(v)
+
+
+def ord_key(v, fx=None):
+    """sort key realising the derived `Ord` of concrete values: variant index, then fields in declaration order"""
+    if isinstance(v, bool):
+        return (0, int(v))
+    if isinstance(v, int):
+        return (0, v)
+    if isinstance(v, str):
+        return (1, v)
+    if isinstance(v, Adt):
+        vi = 0
+        names = sorted(v.fields)
+        a = fx.adts.get(v.path) if fx is not None and v.path else None
+        if a:
+            for i, var in enumerate(a["variants"]):
+                if var["name"] == v.variant:
+                    vi = i
+                    names = [f["name"] for f in var["fields"]]
+        return (2, vi, tuple(ord_key(v.fields.get(n), fx) for n in names))
+    return (3, repr(v))
+
+
 class SetVal:
-    """std HashSet/BTreeSet of concrete scalars"""
+    """std HashSet/BTreeSet of concrete values (scalars, or ADT values identified structurally)"""
 
     def __init__(self, items=()):
-        self.items = set(items)
+        self.vals = {}
+        for x in items:
+            self.vals[_hkey(x)] = x
+
+    @property
+    def items(self):
+        return set(self.vals)
+
+    def add(self, x):
+        k = _hkey(x)
+        new = k not in self.vals
+        self.vals[k] = x
+        return new
+
+    def discard(self, x):
+        return self.vals.pop(_hkey(x), None) is not None
+
+    def has(self, x):
+        return _hkey(x) in self.vals
+
+    def ordered(self, fx=None):
+        return sorted(self.vals.values(), key=lambda v: ord_key(v, fx))
 
     def __repr__(self):
-        return "set(%s)" % sorted(map(repr, self.items))
+        return "set(%s)" % sorted(map(repr, self.vals.values()))
+
+
+class MapVal:
+    """std BTreeMap/HashMap with concrete keys"""
+
+    def __init__(self, pairs=()):
+        self.keys_ = {}
+        self.vals = {}
+        for k, v in pairs:
+            self.put(k, v)
+
+    def put(self, k, v):
+        h = _hkey(k)
+        old = self.vals.get(h)
+        self.keys_[h] = k
+        self.vals[h] = v
+        return old
+
+    def get(self, k):
+        return self.vals.get(_hkey(k))
+
+    def has(self, k):
+        return _hkey(k) in self.vals
+
+    def ordered(self, fx=None):
+        hs = sorted(self.keys_, key=lambda h: ord_key(self.keys_[h], fx))
+        return [(self.keys_[h], self.vals[h]) for h in hs]
+
+    def __repr__(self):
+        return "map(%s)" % ", ".join("%r: %r" % kv for kv in self.ordered())
 
 
 class Ref:
@@ -249,9 +328,10 @@ class Path:
 
 
 class Interp:
-    def __init__(self, fx, hooks=None, max_depth=4, max_paths=512, max_steps=20000, inline=None):
+    def __init__(self, fx, hooks=None, max_depth=4, max_paths=512, max_steps=20000, inline=None, type_env=None):
         self.fx = fx
         self.hooks = hooks or []
+        self.type_env = type_env or {}     # generic parameter name -> ADT path (instantiation of generic workspace functions)
         self.max_depth = max_depth
         self.max_paths = max_paths
         self.max_steps = max_steps
@@ -692,6 +772,17 @@ class Interp:
                 return self._finish_call(fr, t, r)
             key = t.get("resolved_key") or (t.get("callee_key") if not t.get("callee_trait") else None)
         self_adt = None
+        if key is None and t.get("callee_trait") and t.get("callee_self") in self.type_env:
+            # a trait method called on a generic parameter (`Backend::store(..)`) of a function being folded at a known instance
+            inst = self.type_env[t["callee_self"]]
+            for imp in self.fx.impls:
+                if imp.get("trait") == t["callee_trait"] and imp.get("self_adt") == inst:
+                    for m in imp["methods"]:
+                        if m["name"] == t.get("callee_name") and m["key"] in self.fx.fns:
+                            key = m["key"]
+            if key is None and t.get("callee_key") in self.fx.fns:
+                key = t["callee_key"]
+                self_adt = inst
         if key is None and t.get("callee_trait") and t.get("callee_self") == "Self" and getattr(fr, "self_adt", None):
             # inside a provided (default) trait method instantiated at a known Self: dispatch `Self::m` to that impl,
             # or to the trait's own provided method when the impl does not override it
@@ -740,7 +831,7 @@ class Interp:
         if fv.closure:
             env = Adt(None, None, {str(i): c for i, c in enumerate(fv.captures or [])})
             a = [env] + a
-        sub = Interp(self.fx, hooks=self.hooks, max_depth=self.max_depth, max_paths=64, max_steps=self.max_steps, inline=self.inline)
+        sub = Interp(self.fx, hooks=self.hooks, max_depth=self.max_depth, max_paths=64, max_steps=self.max_steps, inline=self.inline, type_env=self.type_env)
         f0 = Frame(body, a)
         f0.depth = depth + 1
         p = Path()
@@ -875,6 +966,17 @@ def _resolve_adt(path, ty, fx, crate=None):
     return best, A["variants"][0]["name"]
 
 
+def _concrete(v):
+    """a value without unknown parts (usable as a set element / map key)"""
+    if isinstance(v, bool) or isinstance(v, (int, str)):
+        return True
+    if isinstance(v, Adt):
+        return all(_concrete(x) for x in v.fields.values())
+    if isinstance(v, Vec):
+        return all(_concrete(x) for x in v.items)
+    return False
+
+
 def std_model(I, p, fr, t, args):
     """models of the few std functions the table-building code uses"""
     c = t.get("callee") or ""
@@ -894,7 +996,7 @@ def std_model(I, p, fr, t, args):
         if n == "from" and sadt.endswith(("hash::set::HashSet", "btree::set::BTreeSet")) and isinstance(d0, Vec):
             return SetVal(x for x in d0.items if isinstance(x, (int, str)))
         if n == "clone":
-            return copy.deepcopy(d0) if isinstance(d0, (Vec, Adt)) else d0
+            return copy.deepcopy(d0) if isinstance(d0, (Vec, Adt, SetVal, MapVal)) else d0
         if n in ("deref", "deref_mut", "as_ref", "as_slice", "as_mut", "borrow", "as_mut_slice"):
             return args[0]
         return d0 if n in ("into_vec", "to_vec", "to_owned", "unwrap_or_clone") else args[0]
@@ -902,30 +1004,86 @@ def std_model(I, p, fr, t, args):
         old = I.deref(args[0])
         I.write_ref(args[0], Vec() if isinstance(old, Vec) else (SetVal() if isinstance(old, SetVal) else Unknown("default")))
         return old
-    if n in ("new", "default", "with_capacity") and sadt.endswith(("hash::set::HashSet", "btree::set::BTreeSet")):
+    SETS = ("hash::set::HashSet", "btree::set::BTreeSet")
+    MAPS = ("hash::map::HashMap", "btree::map::BTreeMap")
+    if n in ("new", "default", "with_capacity") and sadt.endswith(SETS):
         return SetVal()
-    if n == "from" and (sadt.endswith(("hash::set::HashSet", "btree::set::BTreeSet"))) and isinstance(d0, Vec):
-        return SetVal(x for x in d0.items if isinstance(x, (int, str)))
+    if n in ("new", "default", "with_capacity") and sadt.endswith(MAPS):
+        return MapVal()
+    if n == "from" and sadt.endswith(SETS) and isinstance(d0, Vec):
+        return SetVal(x for x in d0.items if _concrete(x))
     if isinstance(d0, SetVal):
         a1 = I.deref(args[1]) if len(args) > 1 else None
-        if n == "contains" and isinstance(a1, (int, str)):
-            return a1 in d0.items
-        if n == "insert" and isinstance(a1, (int, str)):
-            new = a1 not in d0.items
-            d0.items.add(a1)
-            return new
-        if n == "remove" and isinstance(a1, (int, str)):
-            had = a1 in d0.items
-            d0.items.discard(a1)
-            return had
+        depth = getattr(fr, "depth", 0)
+        if n == "contains" and _concrete(a1):
+            return d0.has(a1)
+        if n == "insert" and _concrete(a1):
+            return d0.add(a1)
+        if n == "remove" and _concrete(a1):
+            return d0.discard(a1)
         if n == "len":
-            return len(d0.items)
+            return len(d0.vals)
         if n == "is_empty":
-            return not d0.items
-        if n == "clone":
-            return SetVal(d0.items)
+            return not d0.vals
         if n in ("iter", "into_iter"):
-            return Iter(sorted(d0.items, key=repr))
+            return Iter(d0.ordered(I.fx))
+        if n == "extend":
+            src = a1
+            if isinstance(src, SetVal):
+                for x in src.vals.values():
+                    d0.add(x)
+                return Adt(None, None, {})
+            if isinstance(src, Vec) and all(_concrete(x) for x in src.items):
+                for x in src.items:
+                    d0.add(x)
+                return Adt(None, None, {})
+            if isinstance(src, Iter) and src.items is not None and all(_concrete(x) for x in src.items[src.pos:]):
+                for x in src.items[src.pos:]:
+                    d0.add(x)
+                return Adt(None, None, {})
+        if n == "retain" and isinstance(args[1], FnVal):
+            for x in d0.ordered(I.fx):
+                r = I.call_value(args[1], [x], depth)
+                if not isinstance(r, bool):
+                    return Unknown("retain on unknown")
+                if not r:
+                    d0.discard(x)
+            return Adt(None, None, {})
+        if n in ("union", "difference", "intersection") and isinstance(a1, SetVal):
+            if n == "union":
+                return Iter(SetVal(list(d0.vals.values()) + list(a1.vals.values())).ordered(I.fx))
+            if n == "difference":
+                return Iter([x for x in d0.ordered(I.fx) if not a1.has(x)])
+            return Iter([x for x in d0.ordered(I.fx) if a1.has(x)])
+    if isinstance(d0, MapVal):
+        a1 = I.deref(args[1]) if len(args) > 1 else None
+        OPT = "core::option::Option"
+        if n == "insert" and _concrete(a1) and len(args) > 2:
+            old_v = d0.put(a1, args[2])
+            return Adt(OPT, "Some", {"0": old_v}) if old_v is not None else Adt(OPT, "None", {})
+        if n in ("get", "get_mut") and _concrete(a1):
+            v = d0.get(a1)
+            return Adt(OPT, "Some", {"0": v}) if v is not None else Adt(OPT, "None", {})
+        if n in ("index", "index_mut") and _concrete(a1):
+            v = d0.get(a1)
+            return v if v is not None else "diverge"
+        if n == "contains_key" and _concrete(a1):
+            return d0.has(a1)
+        if n == "remove" and _concrete(a1):
+            h = _hkey(a1)
+            v = d0.vals.pop(h, None)
+            d0.keys_.pop(h, None)
+            return Adt(OPT, "Some", {"0": v}) if v is not None else Adt(OPT, "None", {})
+        if n == "len":
+            return len(d0.vals)
+        if n == "is_empty":
+            return not d0.vals
+        if n in ("keys", "into_keys"):
+            return Iter([k for k, _ in d0.ordered(I.fx)])
+        if n in ("values", "values_mut", "into_values"):
+            return Iter([v for _, v in d0.ordered(I.fx)])
+        if n in ("iter", "iter_mut", "into_iter"):
+            return Iter([Adt(None, None, {"0": k, "1": v}) for k, v in d0.ordered(I.fx)])
     if n == "zip" and isinstance(d0, Iter) and d0.items is not None:
         o = I.deref(args[1])
         if isinstance(o, Vec):
@@ -1054,6 +1212,16 @@ def std_model(I, p, fr, t, args):
                 incl = d0.path.endswith("RangeInclusive") if d0.path else False
                 return Iter(list(range(s, e + (1 if incl else 0))))
         return Iter(None, sym=d0)
+    if n == "new" and (sadt == "core::ops::range::RangeInclusive" or (t.get("callee_key") or "").startswith("core::ops::range::RangeInclusive")) and len(args) == 2:
+        return Adt("core::ops::range::RangeInclusive", "RangeInclusive", {"start": I.deref(args[0]), "end": I.deref(args[1]), "exhausted": False})
+    if isinstance(d0, Adt) and d0.path in ("core::ops::range::Range", "core::ops::range::RangeInclusive") and \
+            n in ("rev", "map", "filter", "any", "all", "position", "find", "for_each", "count", "filter_map", "enumerate", "zip", "skip", "take", "collect",
+                  "step_by", "chain", "fold", "sum") and \
+            (t.get("callee_trait") in ("core::iter::traits::iterator::Iterator", "core::iter::traits::double_ended::DoubleEndedIterator") or c.startswith("core::iter::")):
+        # a range is its own iterator
+        lo, hi = d0.fields.get("start"), d0.fields.get("end")
+        if isinstance(lo, int) and isinstance(hi, int) and not isinstance(lo, bool):
+            d0 = Iter(list(range(lo, hi + (1 if d0.path.endswith("RangeInclusive") else 0))))
     if n in ("any", "all", "map", "filter", "position", "find", "for_each", "count", "filter_map") and isinstance(d0, Iter) and d0.items is not None \
             and (t.get("callee_trait") == "core::iter::traits::iterator::Iterator" or c.startswith("core::iter::")):
         rest = d0.items[d0.pos:]
@@ -1101,8 +1269,11 @@ def std_model(I, p, fr, t, args):
         dty = fr.f["locals"][t["dest"]["l"]]["ty"]
         if dty.startswith("std::vec::Vec"):
             return Vec(d0.items[d0.pos:])
-        if dty.startswith(("std::collections::HashSet", "std::collections::BTreeSet")) and all(isinstance(x, (int, str)) for x in d0.items[d0.pos:]):
+        if dty.startswith(("std::collections::HashSet", "std::collections::BTreeSet")) and all(_concrete(x) for x in d0.items[d0.pos:]):
             return SetVal(d0.items[d0.pos:])
+        if dty.startswith(("std::collections::HashMap", "std::collections::BTreeMap")) and \
+                all(isinstance(x, Adt) and set(x.fields) >= {"0", "1"} and _concrete(x.fields["0"]) for x in d0.items[d0.pos:]):
+            return MapVal((x.fields["0"], x.fields["1"]) for x in d0.items[d0.pos:])
     if n in ("rev",) and isinstance(d0, Iter) and d0.items is not None:
         return Iter(list(reversed(d0.items[d0.pos:])))
     if n in ("enumerate",) and isinstance(d0, Iter) and d0.items is not None:
